@@ -93,6 +93,7 @@ static inline bool substitute_element(Rep& R, std::vector<uint8_t>& buf, size_t 
     if (kind == "plusq") { bool ok = false; for (size_t i = 0; i < ncoord && !ok; i++) ok = add_q_at(e, ((seed + i) % ncoord) * 48); if (!ok) return false; }
     else if (kind == "cflag") { if (ncoord < 2) return false; e[(1 + seed % (ncoord - 1)) * 48] |= 0x80; }
     else if (kind == "offcurve") { if (comp) return false; e[n - 1] ^= 1; }
+    else if (kind == "isocurve") { if (comp || !iso_scale_uncompressed(e, 2 + seed % 5)) return false; }
     else if (kind == "wrongsub") { std::vector<uint8_t> xb; Buf a; if (!rand_curve_point(false, xb, a)) return false; e = model_encode(mpoint_of_affine(R, g, a), comp); }
     else if (kind == "xnoy") { if (!comp) return false; std::vector<uint8_t> xb; Buf a; if (!rand_curve_point(true, xb, a)) return false; e = xb; e[0] |= FL_COMPRESSED; }
     else if (kind == "badinf") { std::fill(e.begin(), e.end(), 0); e[0] = FL_INFINITY | (comp ? FL_COMPRESSED : 0); int v = (int) (seed % 3); if (v == 0) e[n - 1] = 1; else if (v == 1) e[0] |= FL_GREATER; else e[n / 2] = 0x10; }
@@ -113,6 +114,6 @@ static inline bool substitute_element(Rep& R, std::vector<uint8_t>& buf, size_t 
     std::copy(e.begin(), e.end(), buf.begin() + (long) off);
     return true;
 }
-static inline const std::vector<std::string>& invalid_kinds() { static const std::vector<std::string> v = {"plusq", "cflag", "offcurve", "wrongsub", "xnoy", "badinf", "inftail", "zero", "ff", "wrongform", "greater"}; return v; }
+static inline const std::vector<std::string>& invalid_kinds() { static const std::vector<std::string> v = {"plusq", "cflag", "offcurve", "isocurve", "wrongsub", "xnoy", "badinf", "inftail", "zero", "ff", "wrongform", "greater"}; return v; }
 
 } // namespace jv
